@@ -19,6 +19,9 @@ func (e StdEng) Repeat(t Tensor, axis int, repeats ...int) (Tensor, error) {
 	if v, ok := t.(View); ok && v.IsMaterializable() {
 		t = v.Materialize()
 	}
+	if d, ok := t.(DenseTensor); ok {
+		t = asRowMajor(d)
+	}
 	switch tt := t.(type) {
 	case DenseTensor:
 		newShape, newRepeats, newAxis, size, err := e.denseRepeatCheck(t, axis, repeats)
@@ -37,6 +40,9 @@ func (e StdEng) RepeatReuse(t Tensor, reuse Tensor, axis int, repeats ...int) (T
 	// the repeat kernels copy blocks of raw storage: a view or lazily transposed operand is materialized first
 	if v, ok := t.(View); ok && v.IsMaterializable() {
 		t = v.Materialize()
+	}
+	if d, ok := t.(DenseTensor); ok {
+		t = asRowMajor(d)
 	}
 	switch tt := t.(type) {
 	case DenseTensor:
